@@ -102,10 +102,16 @@ def main():
         if a.startswith("--src="):
             srcpat = a.split("=", 1)[1]
     props = args or ["C%02d" % i for i in range(1, 21)]
-    jobs = [(p, k) for p in props for k in (1, 2)]
+    n, tag = 2, ""
+    for a in sys.argv[1:]:
+        if a.startswith("--n="):
+            n = int(a.split("=")[1])
+        if a.startswith("--tag="):
+            tag = a.split("=")[1]
+    jobs = [(p, k) for p in props for k in range(1, n + 1)]
     results = {}
     with cf.ThreadPoolExecutor(max_workers=4) as ex:
-        futs = {ex.submit(confirm, p, k, srcpat % p if "%s" in srcpat else srcpat): (p, k) for p, k in jobs}
+        futs = {ex.submit(confirm, p, k, srcpat % p if "%s" in srcpat else srcpat, f"{p}-{tag}{k}" if tag else None): (p, k) for p, k in jobs}
         for fu in cf.as_completed(futs):
             name, res = fu.result()
             results[name] = res
